@@ -100,7 +100,7 @@ def c14(tier, seed):
 
 def c16(tier, seed):
     return run_sat('C16', tier, seed,
-        lambda th: [],
+        lambda th: [('MC_chain_damage', 'MC_chain', False)],
         lambda th, s: [['persist', '--n', '120' if th else '8', '--seed', str(s)]],
         'PersistTrace', lambda r: r['how'] != 'whole',
         ['the bincode wire format itself is not modelled; state files are produced by ruler\'s own writer'],
